@@ -269,7 +269,7 @@ pub fn run(tier: Tier) -> i32 {
         let filters = &seqs[i];
         for headers in &lists {
             ctx.eval(1);
-            for (sig, what) in check_case(headers, filters) {
+            for (sig, what) in crate::common::run_case(|| json!({"headers": headers, "filters": filters}), || check_case(headers, filters)) {
                 ctx.report(Violation {
                     signature: sig,
                     what,
@@ -297,7 +297,7 @@ pub fn run(tier: Tier) -> i32 {
         let filters = &pseqs[i];
         for headers in &plists {
             ctx.eval(1);
-            for (sig, what) in check_case(headers, filters) {
+            for (sig, what) in crate::common::run_case(|| json!({"headers": headers, "filters": filters, "universe": "prefix"}), || check_case(headers, filters)) {
                 ctx.report(Violation {
                     signature: format!("{sig}:prefix-names/target-hash"),
                     what,
